@@ -377,6 +377,7 @@ def r5_scopes_merge_counts(ctx):
 
 
 def run(ctx):
+    ctx.guard("C06.R6", "evaluation steps reach their evaluator through State::holding: T is put back into the scope it came from", lambda: __import__("c02").r4_holding(ctx, "C06.R6"))
     ctx.guard("C06.R5", "scopes", lambda: r5_scopes_merge_counts(ctx))
     ctx.guard("C06.R1", "PopulationEvaluator", lambda: r1_population_evaluator(ctx))
     ctx.guard("C06.R2", "evaluators", lambda: r2_evaluators(ctx))
